@@ -1037,8 +1037,14 @@ def run_sessions(ctx, sessions, tag):
     if not ctx.model_ok:
         ctx.notes.append('model did not build: implementation-only predicates were evaluated')
         return
+    # one coqc per 30 sessions, 6 at a time (a single 400-term file is slow to print)
+    import concurrent.futures
+    chunks = [exprs[j:j + 30] for j in range(0, len(exprs), 30)]
     try:
-        vals = common.coq_eval('c07' + tag, IMPORTS, exprs, timeout=900)
+        with concurrent.futures.ThreadPoolExecutor(max_workers=6) as ex_:
+            parts = list(ex_.map(lambda jc: common.coq_eval(f'c07{tag}{jc[0]}', IMPORTS, jc[1], timeout=900),
+                                 enumerate(chunks)))
+        vals = [v for part in parts for v in part]
     except RuntimeError as ex:
         ctx.broken.append({'kind': 'model-eval', 'error': str(ex)[:1500]})
         return
@@ -1060,7 +1066,7 @@ def run(ctx):
         except RuntimeError as ex:
             ctx.broken.append({'kind': 'model-eval', 'error': str(ex)[:1500]})
     # 2. sessions
-    n = ctx.budget(28, 420)
+    n = ctx.budget(28, 360)
     sessions = corpus_sessions()
     i = 0
     while len(sessions) < n:
